@@ -27,14 +27,15 @@ func main() {
 	lib.Main(lib.Spec{
 		ID:    "C40",
 		Level: "exploration",
-		Rule: "seqdiff: every operation sequence (depth bound on top of 6 handle-opening prefixes) over the IDbms/ITran/IQuery/ICursor alphabet, " +
+		Rule: "seqdiff: every operation sequence on top of 6 handle-opening prefixes over the IDbms/ITran/IQuery/ICursor alphabet (100 operations): " +
+			"2 levels = (operations that change handles or data) x (all); thorough adds 3 levels = (core changing operations)^2 x (all); " +
 			"executed in lockstep on DbmsLocal and on DbmsClient<->real server connection over net.Pipe+TLS with identical fresh databases; " +
-			"an evaluation = one sequence whose last operation is applicable (distinct by construction); all but the deepest level range over the " +
-			"operations that change handles or data",
+			"an evaluation = one sequence whose last operation is applicable (distinct by construction)",
 		Assumptions: []string{
 			"the local execution is the reference; only nonce/token (length), timestamp (type) and transaction numbers (count) are normalised, and the documented ' (from server)' suffix is removed from error texts",
 			"operations that exist only client-server or only locally by design are excluded: Connections, Kill, Use, Unuse, DisableTrigger, Auth, Dump, Load",
 			"handles are not used after their transaction ended (the language layer prevents it)",
+			"schema changes of a table are not issued while an update transaction is open: the moment that transaction notices its abort (conflict with exclusive) is a race inside db19 on either side",
 			"one session, sequential; fragmentation and concurrent sessions are the mux scenario group",
 		},
 		Procs:          16,
